@@ -432,6 +432,7 @@ def run(report, p):
     # ---- rules shared with other properties (same mechanism, same rule, reported under every property it can break)
     include_rules(report, p, 'c07', ['R7.1', 'R7.2', 'R7.3', 'R7.4'], 'verify -dh recomputes directory hashes with the same context wiring')
     include_rules(report, p, 'c01', ['R1.1'], 'file digests feeding the directory hashes must cover the whole file')
+    include_rules(report, p, 'c02', ['R2.1'], 'verify -dh walks the tree with the same traversal: the folder paths it yields are join(<start as given>, names), which the root-folder test compares with the start path')
     report.not_decided += ["that every change alters a directory hash (C07, collision resistance)", "verdicts for concrete trees"]
 
 
